@@ -2070,7 +2070,9 @@ def gen_snooty_toml(g: G, pages: List[str]) -> str:
     if g.p(0.6):
         g.tags.add("toml-substitutions")
         out += ["", "[substitutions]"]
-        out.append("prod = " + _toml_str(g.ch(["MongoDB", "*Mongo* DB", ":guilabel:`Prod`", "`link <https://example.com>`_", "a\n\nb"])))
+        out.append("prod = " + _toml_str(g.ch(["MongoDB", "*Mongo* DB", ":guilabel:`Prod`", "`link <https://example.com>`_", "a\n\nb",
+                                                     "Intro\n\nDetails\n-------\n\nbody", "* a\n* b", "| line one\n| line two", "term\n  definition",
+                                                     "1. one\n2. two", ".. note:: block note"])))
         if g.p(0.5):
             out.append("ver = " + _toml_str(g.ch(["{+version+}", "7.0", "|prod| 7"])))
         if g.p(0.3):
